@@ -3,7 +3,6 @@ import ast
 
 from ..core import dl, ir
 from .common import get_ctx, require_supported, check_dl
-from .c08 import raise_guards, has_guard
 from . import glue, apirules
 
 EXPLANATION = ("csr.Decoder.elaborate template: strobes gated by the Case of the subordinate's own window pattern (taken "
@@ -60,9 +59,10 @@ def add_validation(rep, idx):
     fi = idx.find_func("csr:Decoder.add")
     site = fi.site
     rep.analysed(site)
-    g = raise_guards(fi)
-    rep.check(has_guard(g, "not isinstance(sub_bus_unflipped, Interface)", "TypeError"), "C06.4", site,
-              "add(): subordinate must be a csr.Interface", "type check with TypeError not found")
-    rep.check(has_guard(g, "sub_bus.data_width != self.bus.data_width", "ValueError"), "C06.4", site,
-              "add(): data widths must be equal", "no `if sub_bus.data_width != self.bus.data_width: raise ValueError`")
+    from .common import get_fn, check_refusal
+    c = get_fn(idx, fi)
+    unfl = "flipped(sub_bus) if isinstance(sub_bus, wiring.FlippedInterface) else sub_bus"
+    check_refusal(rep, "C06.4", c, "add(): subordinate must be a csr.Interface (TypeError)",
+                  [f"not isinstance({unfl}, Interface)", "not isinstance(sub_bus, Interface)"], "TypeError")
+    check_refusal(rep, "C06.4", c, "add(): data widths must be equal (ValueError)", "sub_bus.data_width != self.bus.data_width", "ValueError")
     glue.registry_and_window(rep, "C06.4", idx, fi, ("name", "addr"))
